@@ -7,7 +7,7 @@ import ast
 from ..cfg import build_cfg, calls_in, node_calls
 from ..core import Ctx, property_info, rule, share
 from ..model import AnalysisError, FuncInfo, walk_no_nested
-from ..q import A, Dispatch, L, family, passes, value_texts, call_param, leaf_conditions, arg_forms, asrc, call_name_of, flows, func_text, leaves_at, names_from_calls, node_containing, raw_forms, reach_table, cmp_atom, return_values, bound_arg, enum_members, is_self_attr, kwarg, stores, unparse
+from ..q import X, A, Dispatch, L, family, passes, value_texts, call_param, leaf_conditions, arg_forms, asrc, call_name_of, flows, func_text, leaves_at, names_from_calls, node_containing, raw_forms, reach_table, cmp_atom, return_values, bound_arg, enum_members, is_self_attr, kwarg, stores, unparse
 from .c03 import declare_before_use, event_grammar, writer_typestate
 
 M = "xsdata.formats.dataclass.models"
@@ -149,8 +149,20 @@ def kind_totality(ctx: Ctx) -> None:
     ev_keys = {k.attr for k in ev.keys if isinstance(k, ast.Attribute)}
     chain, else_flag = _kind_chain(ctx)
     flags = dict(chain)
+    init_ = ctx.repo.func(f"{M}.elements:XmlVar.__init__")
+    # the kind is decided on a local derived from xml_type (`kind = xml_type; if ...: kind = XmlType.ELEMENT; match kind`): the per-constant
+    # partial evaluation on xml_type does not see through it
+    derived = sorted({x.id for t in walk_no_nested(init_.node) if isinstance(t, ast.Compare) and len(t.ops) == 1 and isinstance(t.ops[0], (ast.Eq, ast.NotEq, ast.Is, ast.IsNot))
+                      for a, b in ((t.left, t.comparators[0]), (t.comparators[0], t.left)) if unparse(a).startswith("XmlType.") for x in [b] if isinstance(x, ast.Name) and x.id != "xml_type"})
+    if not derived and any(isinstance(c.func, ast.Name) and c.func.id == "setattr" and len(c.args) == 3 and unparse(c.args[0]) == "self" and not isinstance(c.args[1], ast.Constant)
+                           for c in calls_in(init_.node)):
+        derived = ["<flag name computed: setattr(self, flag, ...)>"]
+    if derived:
+        ctx.abstain(f"kind flags of XmlVar.__init__ (decided on the derived local {derived[0]})", at=init_)
     for k in sorted(kinds):
         ctx.ob(f"XmlType.{k} has an annotation evaluator", k in ev_keys, at=bmod, node=ev, construct=f"evaluations {k}", msg="KeyError at metadata build time")
+        if derived:
+            continue
         ctx.ob(f"XmlType.{k} selects exactly one kind flag in XmlVar.__init__", k in flags or (k == "TEXT" and else_flag == "is_text"), at=ctx.repo.func(f"{M}.elements:XmlVar.__init__"),
                construct=f"kind flag {k}", msg="field kind falls through to Text")
     if "TEXT" not in flags and else_flag:
@@ -231,8 +243,20 @@ def kind_totality(ctx: Ctx) -> None:
         "elements": ("find_children", "self.elements.get"), "choices": ("find_children", "self.choices"), "wildcards": ("find_wildcard", "self.wildcards"),
         "attributes": ("find_attribute", "self.attributes.get"), "any_attributes": ("find_any_attributes", "self.any_attributes"), "text": (None, None),
     }
+    # `getattr(var, flag)` with the flag name taken from a table: the classification is data-driven, not readable from the control flow
+    dynamic = [c for c in calls_in(build.node) if isinstance(c.func, ast.Name) and c.func.id == "getattr" and len(c.args) >= 2 and not isinstance(c.args[1], ast.Constant)
+               and isinstance(c.args[0], ast.Name) and c.args[0].id in item_names]
+    # ... or through a table of getters: (attrgetter("is_elements"), choices), ...
+    dynamic += [c for c in calls_in(build.node) if unparse(c.func) in ("attrgetter", "operator.attrgetter") and c.args and isinstance(c.args[0], ast.Constant)
+                and str(c.args[0].value).startswith("is_")]
+    if dynamic:
+        ctx.abstain(f"kind buckets of {build.qual.split(':')[1]}", at=build, why="kind flags are read with getattr(var, <name from a table>) / a table of attrgetter(...) callables")
     for k in sorted(kinds):
         flag = flags.get(k)
+        if derived and (flag is None or flag == "?"):
+            continue
+        if dynamic:
+            continue
         b = buckets.get(flag)
         attr = meta_kw.get(b)
         ctx.ob(f"{k}: flag {flag} fills a bucket that is passed to XmlMeta", bool(b) and bool(attr), at=build, construct=f"bucket {k}",
@@ -290,7 +314,7 @@ def conversion_parameters(ctx: Ctx) -> None:
            at=ep, construct="serialize format", msg="the field's format is not applied when writing (dates/bytes cannot be read back)")
     # enums and arrays are unwrapped recursively with the same var
     rec = [c for c in calls_in(ep.node) if func_text(ep, c) in ("cls.encode_primitive", "self.encode_primitive")]
-    ctx.ob("encode_primitive recursion keeps the same var", len(rec) >= 2 and all(P(ep, c, "var", "var") for c in rec), at=ep, construct="recursive var", msg="format lost for list/enum members")
+    ctx.ob("encode_primitive recursion keeps the same var", len(rec) >= 1 and all(P(ep, c, "var", "var") for c in rec), at=ep, construct="recursive var", msg="format lost for list/enum members")
     ed = ctx.repo.func(f"{SER}:EventHandler.encode_data")
     sers = [c for c in calls_in(ed.node) if func_text(ed, c) == "converter.serialize"]
     ctx.ob("encode_data: converter.serialize(data, ns_map=self.ns_map)", bool(sers) and all(P(ed, c, "ns_map", "self.ns_map") for c in sers),
@@ -377,7 +401,8 @@ def marker_agreement(ctx: Ctx) -> None:
     nx = ctx.repo.func(f"{SER}:EventGenerator.next_attribute")
     nil_w = _yields_of(nx, "QNames.XSI_NIL")
     type_w = _yields_of(nx, "QNames.XSI_TYPE")
-    ctx.floor("marker yields of next_attribute", len(nil_w) + len(type_w), 2)
+    if not nil_w and not type_w:
+        ctx.abstain("marker yields of next_attribute", at=nx, why="no yield names QNames.XSI_NIL / QNames.XSI_TYPE directly: the markers are emitted through a table")
     for y, rest in nil_w:
         vals = [leaf for e in rest[:1] for leaf in leaves_at(nx, y, e)]
         ctx.ob("writer emits QNames.XSI_NIL = 'true' for nillable elements", bool(vals) and all(isinstance(v, ast.Constant) and v.value == "true" for v in vals), at=nx, node=y, construct="nil written",
@@ -464,8 +489,8 @@ def wrapper_symmetry(ctx: Ctx) -> None:
     """The writer brackets wrapped values with var.wrapper_qname; the reader indexes wrappers by the same attribute."""
     cd = ctx.repo.func(f"{SER}:EventGenerator.convert_dataclass")
     ys = [y.value for y in walk_no_nested(cd.node) if isinstance(y, ast.Yield) and isinstance(y.value, ast.Tuple)]
-    s = [y for y in ys if unparse(y.elts[0]).endswith("START") and L(cd, y.elts[1]) == "_.wrapper_qname"]
-    e = [y for y in ys if unparse(y.elts[0]).endswith("END") and L(cd, y.elts[1]) == "_.wrapper_qname"]
+    s = [y for y in ys if unparse(y.elts[0]).endswith("START") and X(cd, y.elts[1]) == "_.wrapper_qname"]
+    e = [y for y in ys if unparse(y.elts[0]).endswith("END") and X(cd, y.elts[1]) == "_.wrapper_qname"]
     ctx.ob("writer emits START/END var.wrapper_qname around wrapped values", len(s) == 1 and len(e) == 1, at=cd, construct="wrapper bracket", msg="wrapper element not written symmetrically")
     b0 = ctx.repo.func(f"{M}.builders:XmlMetaBuilder.build")
     names = {n for n, kw in _meta_keywords_family(ctx, b0).items() if kw == "wrappers"}
@@ -512,8 +537,8 @@ def any_type_marker_guard(ctx: Ctx) -> None:
                    at=ce, node=y, construct="any_type marker guard",
                    msg=f"a truthiness test drops the marker for 0, False, 0.0, Decimal(0) (the value is written without xsi:type and parses back as the string '0' / 'false'), or the guard changed: "
                        f"(not None, not '', any_type, truthy) rows that differ: {bad[:4]}")
-        tab = reach_table(ce, y, [{"re:[\\w.]+!=DataType\\.STRING": True, "re:[\\w.]+==DataType\\.STRING": False, "re:DataType\\.STRING!=[\\w.]+": True, "re:DataType\\.STRING==[\\w.]+": False,
-                                   "re:[\\w.]+isnotDataType\\.STRING": True, "re:[\\w.]+isDataType\\.STRING": False}], raw=True)
+        tab = reach_table(ce, y, [{"re:.+!=DataType\\.STRING": True, "re:.+==DataType\\.STRING": False, "re:DataType\\.STRING!=.+": True, "re:DataType\\.STRING==.+": False,
+                                   "re:.+isnotDataType\\.STRING": True, "re:.+isDataType\\.STRING": False}], raw=True)
         if tab is not None and "DataType.STRING" in ast.unparse(ce.node):
             ctx.ob("convert_element: strings are the only datatype written without a marker", tab == {(True,): True, (False,): False}, at=ce, node=y, construct="string exempt", msg=f"marker exemption changed: {tab}")
 
